@@ -113,7 +113,7 @@ CHECKS["C19"] = dict(
     ref="DESIGN.md section 6 C19")
 CHECKS["C20"] = dict(
     technique="one inductive step per public function from an arbitrary state, decided by bounded symbolic execution (CrossHair + z3): module-level state havocked, other calls (including a raising one) interposed, every mutable default of every pyrepseq function audited, caller containers compared leaf-by-leaf by identity, results before/after compared as z3 terms; randomised calls re-run with the recorded generator outcomes",
-    text="For 34 call scenarios covering search, statistics, metrics, io, clustering and plotting helpers: the call leaves its arguments and option dictionaries untouched, leaves all 9 mutable default arguments in the package at their import-time values, and returns the same value whether it runs first or after havocked module state and interposed calls; with the same generator outcomes a randomised call returns the same value. By induction on history length every history leaves the observable state equal to the initial one.",
+    text="For 36 call scenarios covering search, statistics, metrics, io, clustering and plotting helpers: the call leaves its arguments and option dictionaries untouched, leaves all 9 mutable default arguments in the package at their import-time values, and returns the same value whether it runs first or after havocked module state and interposed calls; with the same generator outcomes a randomised call returns the same value. By induction on history length every history leaves the observable state equal to the initial one.",
     note=_XH_NOTE + " Third-party global state (matplotlib figure stack, pandas options) is outside the claim.",
     ref="DESIGN.md section 6 C20")
 
